@@ -18,6 +18,10 @@ import (
 	"github.com/bfenetworks/bfe/bfe_basic"
 	"github.com/bfenetworks/bfe/bfe_http"
 	"github.com/bfenetworks/bfe/bfe_module"
+	"github.com/bfenetworks/bfe/bfe_modules/mod_block"
+	"github.com/bfenetworks/bfe/bfe_modules/mod_geo"
+	"github.com/bfenetworks/bfe/bfe_modules/mod_redirect"
+	"github.com/bfenetworks/bfe/bfe_modules/mod_rewrite"
 	"github.com/bfenetworks/bfe/bfe_route"
 	"github.com/bfenetworks/bfe/bfe_server"
 )
@@ -509,10 +513,196 @@ func genBalReload(r *vh.Rand) string {
 	return "balreload " + string(b) + "l" + r.Pick("g", "m", "")
 }
 
+// ---- mod: module data reloads vs in-flight requests -------------------------------------------------------------
+//
+// op = `mod <module> <steps>`; module ∈ geo | block | redirect | rewrite; steps: R<v> = reload the module's data with
+// version v (geo: the shipped test database, every version answers CN), T<i> = request i takes its snapshot (the first half
+// of the real handler: read the table / database under the read lock), U<i> = request i uses what it took (the second half
+// of the real handler), H = a whole new request through the real handler.  result = `U<i>=<value>` / `H=<value>` per step;
+// the value names the data version that answered (`-` = no rule, `err` = the lookup failed).
+
+const modIP = "123.114.119.152"
+
+type modDrv struct {
+	reload func(v int) error
+	take   func() interface{}
+	use    func(snap interface{}) string
+	handle func() string
+}
+
+func modReq() *bfe_basic.Request {
+	r := newReqPlain()
+	r.Route.Product = "p"
+	return r
+}
+
+func newReqPlain() *bfe_basic.Request {
+	hr := &bfe_http.Request{Method: "GET", Host: "a.com", URL: &url.URL{Path: "/"}, Header: make(bfe_http.Header)}
+	req := &bfe_basic.Request{HttpRequest: hr, Session: &bfe_basic.Session{}}
+	req.Context = make(map[interface{}]interface{})
+	return req
+}
+
+func modFile(name, content string) string {
+	d := filepath.Join(dir(), "mod")
+	os.MkdirAll(d, 0755)
+	p := filepath.Join(d, name)
+	if err := os.WriteFile(p, []byte(content), 0644); err != nil {
+		panic(err)
+	}
+	return p
+}
+
+func newModDrv(name string) *modDrv {
+	switch name {
+	case "geo":
+		m := mod_geo.NewModuleGeo()
+		return &modDrv{
+			reload: func(v int) error { return m.VerifC15Reload(mod_geo.VerifC15DataFile()) },
+			take:   func() interface{} { return m.VerifC15Take() },
+			use:    func(s interface{}) string { return mod_geo.VerifC15Use(s, modIP) },
+			handle: func() string { return m.VerifC15Handle(modIP) },
+		}
+	case "block":
+		m := mod_block.NewModuleBlock()
+		return &modDrv{
+			reload: func(v int) error {
+				return m.VerifC15Reload(modFile("block.data", fmt.Sprintf(`{"Version":"%d","Config":{"p":[{"action":{"cmd":"ALLOW","params":[]},"name":"%d","cond":"default_t()"}]}}`, v, v)))
+			},
+			take:   func() interface{} { return m.VerifC15Take("p") },
+			use:    func(s interface{}) string { return m.VerifC15Use(s, modReq()) },
+			handle: func() string { return m.VerifC15Handle(modReq()) },
+		}
+	case "redirect":
+		m := mod_redirect.NewModuleRedirect()
+		return &modDrv{
+			reload: func(v int) error {
+				return m.VerifC15Reload(modFile("redirect.data", fmt.Sprintf(`{"Version":"%d","Config":{"p":[{"Cond":"default_t()","Actions":[{"Cmd":"URL_SET","Params":["%d"]}],"Status":301}]}}`, v, v)))
+			},
+			take:   func() interface{} { return m.VerifC15Take("p") },
+			use:    func(s interface{}) string { return m.VerifC15Use(s, modReq()) },
+			handle: func() string { return m.VerifC15Handle(modReq()) },
+		}
+	case "rewrite":
+		m := mod_rewrite.NewModuleReWrite()
+		strip := func(p string) string { return strings.TrimPrefix(p, "/") }
+		return &modDrv{
+			reload: func(v int) error {
+				return m.VerifC15Reload(modFile("rewrite.data", fmt.Sprintf(`{"Version":"%d","Config":{"p":[{"Cond":"default_t()","Actions":[{"Cmd":"PATH_SET","Params":["/%d"]}],"Last":true}]}}`, v, v)))
+			},
+			take:   func() interface{} { return m.VerifC15Take("p") },
+			use:    func(s interface{}) string { return strip(m.VerifC15Use(s, modReq())) },
+			handle: func() string { return strip(m.VerifC15Handle(modReq())) },
+		}
+	}
+	return nil
+}
+
+func modRun(body string) string {
+	i := strings.IndexByte(body, ' ')
+	if i < 0 {
+		return "bad-op"
+	}
+	name := body[:i]
+	d := newModDrv(name)
+	if d == nil {
+		return "bad-op"
+	}
+	if err := d.reload(0); err != nil {
+		return "init-failed"
+	}
+	snaps := map[int]interface{}{}
+	var out []string
+	for _, st := range strings.Split(body[i+1:], ",") {
+		if st == "H" {
+			out = append(out, "H="+d.handle())
+			continue
+		}
+		if len(st) < 2 {
+			return "bad-op"
+		}
+		n, err := strconv.Atoi(st[1:])
+		if err != nil {
+			return "bad-op"
+		}
+		switch st[0] {
+		case 'R':
+			if err := d.reload(n); err != nil {
+				out = append(out, st+"=failed")
+			}
+		case 'T':
+			snaps[n] = d.take()
+		case 'U':
+			if s, ok := snaps[n]; ok {
+				v := d.use(s)
+				if name == "geo" && v == "CN" {
+					v = "ok"
+				}
+				out = append(out, st+"="+v)
+			}
+		default:
+			return "bad-op"
+		}
+	}
+	for k, o := range out {
+		if name == "geo" && o == "H=CN" {
+			out[k] = "H=ok"
+		}
+	}
+	if len(out) == 0 {
+		return "-"
+	}
+	return strings.Join(out, ",")
+}
+
+func genMod(r *vh.Rand) string {
+	name := r.Pick("geo", "geo", "block", "redirect", "rewrite")
+	nreq := r.Range(1, 3)
+	type rq struct{ script []string }
+	rs := make([]rq, nreq)
+	for i := range rs {
+		id := i + 1
+		s := []string{fmt.Sprintf("T%d", id)}
+		for k := r.Range(1, 3); k > 0; k-- {
+			s = append(s, fmt.Sprintf("U%d", id))
+		}
+		rs[i].script = s
+	}
+	nrel := r.Range(1, 4)
+	next := 1
+	var out []string
+	for {
+		var live []int
+		for i := range rs {
+			if len(rs[i].script) > 0 {
+				live = append(live, i)
+			}
+		}
+		if len(live) == 0 && nrel == 0 {
+			break
+		}
+		if nrel > 0 && (len(live) == 0 || r.Chance(2, 5)) {
+			out = append(out, fmt.Sprintf("R%d", next))
+			next++
+			nrel--
+			if r.Chance(1, 3) {
+				out = append(out, "H")
+			}
+			continue
+		}
+		i := live[r.Intn(len(live))]
+		out = append(out, rs[i].script[0])
+		rs[i].script = rs[i].script[1:]
+	}
+	return "mod " + name + " " + strings.Join(out, ",")
+}
+
 func exec(op string) string {
 	switch {
 	case strings.HasPrefix(op, "sched "):
 		return sched(op[6:])
+	case strings.HasPrefix(op, "mod "):
+		return modRun(op[4:])
 	case strings.HasPrefix(op, "balreload "):
 		return balReload(op[10:])
 	case strings.HasPrefix(op, "serve "):
@@ -533,6 +723,9 @@ func gen(r *vh.Rand) string {
 	}
 	if r.Chance(1, 25) {
 		return genBalReload(r)
+	}
+	if r.Chance(1, 5) {
+		return genMod(r)
 	}
 	if r.Chance(2, 5) {
 		return genServe(r)
